@@ -202,7 +202,12 @@ def rule_from_specification(ctx):
     body = b["body"]
     ev = sym.Eval(fx, inline_depth=0)
     v = ev.function(b)
-    ANF = ("call", "AnnotatedFormula::replace_placeholders", (("each", ("place", "specification.formulas")), ("param", "placeholders")))
+    PN = [p_.get("name") for p_ in b["params"]]
+    if len(PN) != 3 or None in PN:
+        raise AnalysisGap("from_specification: expected the parameters (specification, taken predicates, placeholders)")
+    PARAMS, TK_NAME = set(PN), PN[1]
+    PHP = ("param", PN[2])
+    ANF = ("call", "AnnotatedFormula::replace_placeholders", (("each", ("place", PN[0] + ".formulas")), PHP))
     # dispatch on the role
     ms = [m for m in hq.matches_over(body, "syntax_tree::fol::sigma_0::Role")]
     if len(ms) != 1:
@@ -225,19 +230,21 @@ def rule_from_specification(ctx):
         c0 = hq.calls(st[0], "CheckInternal::definition") if st else []
         pm = hq.parent_map(d)
         ins = hq.calls(st[1], method="insert") if len(st) > 1 else []
-        ok = len(c0) == 1 and hq.is_try_propagated(pm, c0[0]) and local_of(c0[0]["args"][0]) == "taken_predicates" and len(ins) == 1 and local_of(ins[0]["recv"]) == "taken_predicates" \
+        tk_local = local_of(c0[0]["args"][0]) if len(c0) == 1 else None
+        ok = len(c0) == 1 and hq.is_try_propagated(pm, c0[0]) and tk_local in PARAMS and len(ins) == 1 and local_of(ins[0]["recv"]) == tk_local \
             and st[0]["k"] == "LetStmt" and hq.field_path(ins[0]["args"][0]) == st[0]["pat"].get("name", "?") + ".data"
         detail = "stmt0: %s; stmt1: %s" % (hq.render(hq.stmt_expr(st[0]))[:80] if st else None, hq.render(hq.stmt_expr(st[1]))[:80] if len(st) > 1 else None)
         recv_ok = c0 and hq.field_path(c0[0]["recv"]) is not None and hq.field_path(c0[0]["recv"]).endswith(".formula")
         ok = ok and bool(recv_ok)
     ctx.add("SEQ", "definition-checked-then-taken", ok, site, "a definition entry is validated against taken_predicates (`?`) and its predicate is inserted before the next entry: " + detail)
-    tk = ev.last_env.get("taken_predicates", [None])[-1]
+    tk = ev.last_env.get(TK_NAME, [None])[-1]
     ctx.add("SEQ", "taken-accumulates", tk is not None and "'acc'" in repr(tk) and "insert" in repr(tk), site, "taken_predicates is carried across entries (loop-carried insert)")
     # lemmas: universal closure, try_into
     l = rows.get("Role::Lemma")
-    gl = [t for t in ev.bound.get("general_lemma", [])]
+    gl_name = hq.local_name_of_let_with_call(l, "universal_closure_with_quantifier_joining", "general_lemma") if l is not None else "general_lemma"
+    gl = [t for t in ev.bound.get(gl_name, [])]
     ref = ("try", ("call", "TryInto::try_into", (("call", "AnnotatedFormula::replace_placeholders",
-                                                  (("call", "AnnotatedFormula::universal_closure_with_quantifier_joining", (ANF,)), ("param", "placeholders"))),)))
+                                                  (("call", "AnnotatedFormula::universal_closure_with_quantifier_joining", (ANF,)), PHP)),)))
     ctx.add("TPL", "lemma-closure", gl == [ref], site, "a lemma entry becomes GeneralLemma::try_from(universal closure of the entry)", construct=gl[:1])
     # direction routing
     lists = {}
@@ -310,8 +317,15 @@ def rule_sequencing(ctx):
         st = hq.stmts_of(obody)
         inner_idx = [i for i, s in enumerate(st) if hq.stmt_expr(s) is not None and any(
             True for l in hq.for_loops({"x": hq.stmt_expr(s)}) if any(x.endswith(".conjectures") for x in flow.places_in(flow.summ(l[1]))))]
+        # the running list of axioms, by role: the local that every outline problem of this loop starts from (first add_annotated_formulas)
+        ax_name = None
+        for l_ in hq.for_loops(obody):
+            for ch_ in tasks.problem_chains(l_[3] or {}):
+                adds_ = [a_[0] for m_, a_, _ in ch_["steps"] if m_ == "add_annotated_formulas"]
+                if adds_ and local_of(adds_[0]):
+                    ax_name = local_of(adds_[0])
         app_idx = [i for i, s in enumerate(st) if hq.stmt_expr(s) is not None and [c for c in walk(hq.stmt_expr(s)) if c.get("k") == "MethodCall" and c["method"] in ("append", "extend", "push", "extend_from_slice")
-                                                                                  and "axioms" == (local_of(c["recv"]) or "") ]]
+                                                                                  and ax_name is not None and ax_name == (local_of(c["recv"]) or "") ]]
         problem_idx = [i for i, s in enumerate(st) if hq.calls(s, "Problem::with_name")]
         ok = len(inner_idx) == 1 and len(app_idx) == 1 and app_idx[0] > inner_idx[0] and problem_idx == inner_idx
         ctx.add("SEQ", d + ":append-after-problems", ok, site,
@@ -331,9 +345,9 @@ def rule_sequencing(ctx):
             ok = len(ch) == 1
             if ok:
                 adds = [a[0] for m, a, _ in ch[0]["steps"] if m == "add_annotated_formulas"]
-                ok = len(adds) == 2 and local_of(adds[0]) == "axioms" and (local_id_of(strip(adds[1])["args"][0]) if strip(adds[1]).get("k") == "Call" else None) in conj_ids
+                ok = len(adds) == 2 and ax_name is not None and local_of(adds[0]) == ax_name and (local_id_of(strip(adds[1])["args"][0]) if strip(adds[1]).get("k") == "Call" else None) in conj_ids
                 # nothing in the inner loop modifies axioms
-                muts = [c for c in walk(inner[3]) if c.get("k") == "MethodCall" and local_of(c["recv"]) == "axioms" and c["method"] not in ("clone",)]
+                muts = [c for c in walk(inner[3]) if c.get("k") == "MethodCall" and local_of(c["recv"]) == ax_name and c["method"] not in ("clone",)]
                 ok = ok and not muts
             ctx.add("SEQ", d + ":outline-problem", ok, site, "each outline problem = the axioms accumulated so far + exactly one conjecture of the lemma; the inner loop does not touch the axioms")
         # MIR cross-check: the append block is not followed by a Problem::with_name of the same iteration without passing the loop head
@@ -392,7 +406,7 @@ def rule_taken_at_call_site(ctx):
     ev = sym.Eval(fx, inline_depth=0)
     v = ev.function(b)
     calls = [x for x in sym.subterms(v) if isinstance(x, tuple) and x[:2] == ("call", "ProofOutline::from_specification")]
-    tk = ev.last_env.get("taken_predicates", [None])[-1]
+    tk = ev.last_env.get(hq.local_name_of_arg(b["body"], "ProofOutline::from_specification", 1, "taken_predicates"), [None])[-1]
     rt = repr(tk)
     ok = len(calls) >= 1 and tk is not None and all(c[2][1] == tk for c in calls) and "rename_predicates" in rt and rt.count("Formula::predicates") >= 2 and "input_predicates" in rt
     ctx.add("SEQ", "taken-at-call-site", ok, ctx.site(b),
